@@ -2,7 +2,7 @@ PROPERTY = "C05"
 ENTRY = {
     "text": "Concurrency.tla models request stages vs admin operations / background workers over shared configuration cells "
             "(TLC: every request is answered whatever is interleaved; observed versions exist) and derives the conflict pairs "
-            "(writer x stage sharing a cell); every derived scenario family is executed against the fully wired server (real run() wiring "
+            "(writer x stage sharing a cell) and the pairs of a background worker with the persist step that ends every admin operation (PersistPairs); every derived scenario family is executed against the fully wired server (real run() wiring "
             "in package home: real HTTP mux, real UDP/TCP DNS sockets, real filtering/querylog/stats/clients/DHCP objects) with concurrent "
             "request goroutines, admin goroutines and the background workers under the Go race detector; race reports, panics, "
             "malformed responses and reproduced stalls (goroutine dump of lock-blocked goroutines) are disagreements with the spec's "
